@@ -7,7 +7,7 @@ from ..core import AnalysisError, norm, walk_no_nested, flat
 
 META = {
     'design_ref': 'DESIGN.md §5 C17',
-    'technique': "abstract interpretation on symbolic strings with automatic case refinement: decode(encode(lines)) on lists of symbolic lines of the property's domain, License converters, the two list converters on symbolic items (accepted items must read back, refused ones raise the format error); regular-language inclusion between the writer-side validator and str.split(); property accessors and document construction/dump/insertion interpreted on stubs; line-primitive rule for the multiline codec; who-may-call rule for the raw store of the wrapped paragraphs; validating constructors interpreted on paragraphs the creators can write; the constructor of the underlying mapping adopts only its _parsed argument as backing store",
+    'technique': "abstract interpretation on symbolic strings with automatic case refinement: decode(encode(lines)) on lists of symbolic lines of the property's domain, License converters, the two list converters on symbolic items (accepted items must read back, refused ones raise the format error); regular-language inclusion between the writer-side validator and str.split(); property accessors and document construction/dump/insertion interpreted on stubs; line-primitive rule for the multiline codec; who-may-call rule for the raw store of the wrapped paragraphs; validating constructors interpreted on paragraphs the creators can write; the constructor of the underlying mapping adopts only its _parsed argument as backing store; the strict reader interpreted on a paragraph whose pattern is no legal glob",
     'level_text': 'Static decision: for every line of the stated domain the decoder applied to the encoder\'s output returns the line '
                   '(first line and continuation lines separately), the decoder rejects a continuation without the prefix with the format '
                   'error; a value accepted by the space-separated writer is never split by the reader; every restricted field uses the '
@@ -508,6 +508,9 @@ def r7_reader_requirements(rep, src):
              ('FilesParagraph', 'no Copyright field', {'Files': 'x', 'License': 'l'}, 'complaint'),
              ('FilesParagraph', 'no License field', {'Files': 'x', 'Copyright': 'c'}, 'complaint'),
              ('FilesParagraph', 'no Files field', {'Copyright': 'c', 'License': 'l'}, 'raise'),
+             # (the creators accept any pattern without white space; that a pattern is not a legal glob is reported when a name is
+             # matched against it -- C16 -- not when the document is read)
+             ('FilesParagraph', 'a pattern with a backslash that escapes nothing', {'Files': 'contrib\\win32\\* src/*', 'Copyright': 'c', 'License': 'l'}, 'ok'),
              ('LicenseParagraph', 'License present and empty', {'License': ''}, 'ok'),
              ('LicenseParagraph', 'License with text', {'License': 'l'}, 'ok'),
              ('LicenseParagraph', 'no License field', {'Comment': 'c'}, 'raise')]
@@ -517,12 +520,19 @@ def r7_reader_requirements(rep, src):
             raise AnalysisError('%s:%s.__init__ not found' % (M, cname))
         rep.saw_func(fn)
         complaints = []
-        heap = H.Heap(mod, extra_modules=[src.mod('deb822')], hooks={'_complain': lambda it, a, k, c_=complaints: c_.append(a[0])})
+        from . import C16
+
+        def translate(it_, a, k):
+            gl = [g_.concrete() if hasattr(g_, 'concrete') else g_ for g_ in it_.seq(a[0])]
+            if any(not isinstance(g_, str) or C16._ref_glob_regex(g_) is None for g_ in gl):
+                raise H.Raised('MachineReadableFormatError', it_.h.version, 0)
+            return it_.h.alloc('Pattern', {'globs': tuple(gl)})
+        heap = H.Heap(mod, extra_modules=[src.mod('deb822')], hooks={'_complain': lambda it, a, k, c_=complaints: c_.append(a[0]), 'globs_to_re': translate})
         it = H.Interp(heap)
         d = heap.new_dict()
         for k_, v_ in content.items():
             heap.dict_set(d, k_, v_)
-        me = heap.alloc(cname, {'files': ('x',)})
+        me = heap.alloc(cname, {'files': tuple(content.get('Files', 'x').split())})
         params = fn.params()
         args = [d] + [True] * (len(params) - 2)
         what = '%s(parsed paragraph): %s' % (cname, label)
@@ -535,8 +545,10 @@ def r7_reader_requirements(rep, src):
         if got == want:
             rep.ok('C17.R7', fn.site, what, {'ok': 'accepted', 'complaint': 'reported', 'raise': 'refused'}[got])
         elif want == 'ok':
-            rep.fail('C17.R7', fn.site, what, 'the strict reader %s (%s) a paragraph the creators write: create() accepts the empty text (only None is refused), the dump writes the field '
-                     'with an empty value, and the document is rejected when it is read back' % ('refuses' if got == 'raise' else 'complains about', complaints[0]), where=fn.where)
+            rep.fail('C17.R7', fn.site, what, 'the strict reader %s (%s) a paragraph the creators write (%s): the document is rejected when it is read back' % (
+                'refuses' if got == 'raise' else 'complains about', complaints[0],
+                'create() accepts any pattern without white space' if 'pattern' in label else 'create() accepts the empty text -- only None is refused -- and the dump writes the field with '
+                'an empty value'), where=fn.where)
         else:
             rep.fail('C17.R7', fn.site, what, 'expected %s, got %s %r' % (want, got, complaints[:1]), where=fn.where)
 
